@@ -30,6 +30,9 @@ def build_fixture(root):
     good = open(os.path.join(src, "Europe", "Paris"), "rb").read()
     open(os.path.join(tz, "Truncated"), "wb").write(good[: len(good) // 2])
     # truncated inside the footer: the closing newline missing, cut right after the opening newline, no footer at all
+    # data appended after the footer ("future changes to the format may append more data"): still a valid file
+    open(os.path.join(tz, "Appended1"), "wb").write(good + b"\n")
+    open(os.path.join(tz, "Appended2"), "wb").write(good + b"more data from the future\x00\xff\n" * 7)
     open(os.path.join(tz, "TruncNL"), "wb").write(good[:-1])
     fstart = good.rindex(b"\n", 0, len(good) - 1)
     open(os.path.join(tz, "TruncFooter"), "wb").write(good[:fstart + 1])
@@ -73,7 +76,7 @@ def run(pid, tier, seed):
     tzdir = build_fixture(fx)
     abs_syd = os.path.join(fx, "abs_sydney")
     names = [b"America/New_York", b"X", b"file:X", b"file:America/New_York", abs_syd.encode(), b"file:" + abs_syd.encode(),
-             b"Nope/Missing", b"", b"Dir", b"Unreadable", b"Truncated", b"TruncNL", b"TruncFooter", b"TruncNoFooter", b"TruncMidRule", b"Garbage", b"Empty", b"RightSlim", b"RightFat", b"BadFooter", b"V1",
+             b"Nope/Missing", b"", b"Dir", b"Unreadable", b"Truncated", b"Appended1", b"Appended2", b"TruncNL", b"TruncFooter", b"TruncNoFooter", b"TruncMidRule", b"Garbage", b"Empty", b"RightSlim", b"RightFat", b"BadFooter", b"V1",
              b":X", b":America/New_York", b"UTC", b"UTC0", b"Fixed/UTC+01:00:00", b"Fixed/UTC-23:59:59", b"Fixed/UTC+24:00:01",
              b"file:", b"file:/", b"/", b"/nonexistent/zone", b"file:UTC", b"localtime", b"x/../X", b"America/New_York/", b"X ", b" X",
              (tzdir + "/X").encode(), b"file:" + (tzdir + "/Garbage").encode(), b"Etc/UTC", b"posixrules"]
